@@ -377,6 +377,7 @@ type c15In struct {
 type c15Sess struct {
 	c     *fw.C
 	label string
+	pid   string // the id the protocol manager knows this peer by
 	our   *p2p.MsgPipeRW
 	done  chan struct{} // closed when Run returned (or panicked)
 	err   error
@@ -404,6 +405,7 @@ func c15Open(c *fw.C, pm *protocol.ProtocolManager, label string) *c15Sess {
 	binary.BigEndian.PutUint64(id[:8], c15PeerSeq<<8|0x5a)
 	copy(id[8:], label)
 	peer := p2p.NewPeer(id, "c15-"+label, nil)
+	s.pid = fmt.Sprintf("%x", id[:8])
 	go func() {
 		defer func() {
 			if r := recover(); r != nil {
